@@ -69,6 +69,23 @@ let () =
         Buffer.add_string b ("F:" ^ show_obs fin);
         Buffer.add_string b (if !anybad then " P=MODEL-LEDGER-BAD" else " P=ok");
         print_endline (Buffer.contents b)
+      | "list" :: k :: toks ->
+        let lop tok = match split ',' tok with
+          | ["NN"; v] -> NNew (n v) | ["CP"; v; w] -> NCopy (n v, n w) | ["RS"; v] -> NReset (n v)
+          | ["LK"; v; w] -> NLink (n v, n w) | ["FN"; v; w] -> NFromNext (n v, n w) | ["MN"; v; w] -> NMoveNext (n v, n w)
+          | _ -> failwith ("bad list op " ^ tok) in
+        let show o =
+          String.concat "," (List.map (function None -> "0" | Some (ob, c) -> Printf.sprintf "%d:%d" (int_of_nat ob) (int_of_nat c)) o.no_vars) ^ ";" ^
+          String.concat "." (List.map (fun (d, nx) -> Printf.sprintf "%d>%s" (int_of_nat d) (match nx with None -> "-" | Some x -> string_of_int (int_of_nat x))) o.no_nodes) in
+        let (outs, fin) = nrun_case (n k) (List.map lop toks) in
+        let b = Buffer.create 256 in
+        let anybad = ref fin.no_bad in
+        List.iter (function
+          | Some o -> if o.no_bad then anybad := true; Buffer.add_string b (show o); Buffer.add_char b ' '
+          | None -> Buffer.add_string b "skip ") outs;
+        Buffer.add_string b ("F:" ^ show fin);
+        Buffer.add_string b (if !anybad then " P=MODEL-LEDGER-BAD" else " P=ok");
+        print_endline (Buffer.contents b)
       | "trace" :: caseno :: hs :: rest ->
         (* multi-object trace: project onto each object (disjoint counters) and replay each projection on Conc.validate *)
         let rec toks acc = function
